@@ -63,6 +63,17 @@ func (t *Topo) AddRelation(relID string, target string) {
 	t.mu.Unlock()
 }
 
+// RemoveRelationsTo deletes every relation whose target entity is the given one.
+func (t *Topo) RemoveRelationsTo(target string) {
+	t.mu.Lock()
+	defer t.mu.Unlock()
+	for id, o := range t.objects {
+		if r := o.GetRelation(); r != nil && string(r.TgtEntityID) == target {
+			delete(t.objects, id)
+		}
+	}
+}
+
 // RemoveObject deletes an object.
 func (t *Topo) RemoveObject(id string) {
 	t.mu.Lock()
